@@ -121,6 +121,10 @@ func (fan *HwMonFan) AttachFanRpmCurveData(curveData *map[int]float64) (err erro
 
 	fan.FanCurveData = curveData
 
+	// forget a start PWM measured from previously attached data (a configured one is kept):
+	// ComputePwmBoundaries treats any start PWM below the maximum as an override
+	fan.SetStartPwm(MaxPwmValue, false)
+
 	startPwm, maxPwm := ComputePwmBoundaries(fan)
 	fan.SetStartPwm(startPwm, false)
 	fan.SetMaxPwm(maxPwm, false)
